@@ -7,7 +7,11 @@ Correspondence (worker environment: default; the Unmarshal side also under SONIC
            property names for that switch AND IN NOTHING ELSE; encoding/json is the reference where it
            has the same notion (HTMLEscape, \\ufffd replacement, UseNumber, DisallowUnknownFields);
   entry    every alternative entry point must return what the frozen Config returns;
-  froze / setseq   the real option words against `froze` / `applySetter` of the regenerated tables.
+  froze / setseq   the real option words against `froze` / `applySetter` of the regenerated tables;
+  optbig   large documents built by repetition (array lengths straddling optdec's 65536-node buffer, the stream
+           decoder's buffer sizes, option.LimitBufferSize), under both decoders: the small document stands in the
+           switch's relation, the large result is the small one with the repetition count scaled (decided by the
+           driver on run-length dumps), the chunk-fed stream decoder agrees with Unmarshal.
 """
 import json
 import os
@@ -60,17 +64,20 @@ class C18(Spec):
     def streams(self, tier, seed):
         # the Unmarshal side also under the alternative decoder (the switches are the same Config bits there)
         optdec = {"optdec": {"SONIC_USE_OPTDEC": "1"}}
+        both = {"default": {}, "optdec": {"SONIC_USE_OPTDEC": "1"}}
         if tier == "quick":
             return [Stream("pair", "c18.pair", 3200, timeout=0.2),
                     Stream("entry", "c18.entry", 1200, timeout=0.2, use_model=False),
                     Stream("words", "c18.words", 1500),
                     Stream("pair-optdec", "c18.pairu", 1600, envs=optdec, timeout=0.2),
-                    Stream("entry-optdec", "c18.entryu", 600, envs=optdec, timeout=0.2, use_model=False)]
+                    Stream("entry-optdec", "c18.entryu", 600, envs=optdec, timeout=0.2, use_model=False),
+                    Stream("big", "c18.big", 60, envs=both, timeout=3.0)]
         return [Stream("pair", "c18.pair", 800000, timeout=0.2),
                 Stream("entry", "c18.entry", 150000, timeout=0.2, use_model=False),
                 Stream("words", "c18.words", 20000),
                 Stream("pair-optdec", "c18.pairu", 250000, envs=optdec, timeout=0.2),
-                Stream("entry-optdec", "c18.entryu", 60000, envs=optdec, timeout=0.2, use_model=False)]
+                Stream("entry-optdec", "c18.entryu", 60000, envs=optdec, timeout=0.2, use_model=False),
+                Stream("big", "c18.big", 400, envs=both, timeout=3.0)]
 
     # ------------------------------------------------------------------ model line
     def _tables(self):
@@ -105,6 +112,10 @@ class C18(Spec):
         if op == "setseq":
             t = self._tables()
             return "\t".join(["setseq", case[1], case[2], t["setters"]]) if t else None
+        if op == "optbig" and "a" in sonic and "sw" in sonic and "CA" in sonic:
+            return "\t".join(["optbig", sonic["sw"], sonic.get("on", "-"), case[3], sonic.get("doc", "-"), sonic["a"], sonic["b"],
+                              sonic.get("x", "-"), sonic.get("xdoc", "!"), sonic.get("fields", "-"), sonic.get("ns", "0"), sonic.get("nb", "0"),
+                              sonic.get("ca", "-"), sonic.get("cb", "-"), sonic["CA"], sonic.get("CB", "-"), sonic.get("SA", "-"), sonic.get("SB", "-")])
         if op != "optpair" or "a" not in sonic or "sw" not in sonic:
             return None
         if case[3] == "m":
@@ -172,6 +183,19 @@ class C18(Spec):
                     if rv is False:
                         out.append(("switch-%s-%s" % (name, case[3]), "%s: reference relation fails (model: %s) a=%s b=%s ref=%s"
                                     % (env, m, s.get("a", "")[:300], s.get("b", "")[:300], s.get("ref", "")[:300])))
+            elif op == "optbig":
+                name = s.get("sw") or _name(case)
+                vals = [s.get(k) for k in ("a", "b", "ca", "cb", "CA", "CB", "SA", "SB")]
+                if "P:both_number_modes" in vals:
+                    if not all(v == "P:both_number_modes" for v in vals[1::2]):
+                        out.append(("big-%s" % name, "%s: the both-number-modes panic depends on the size of the document: %s" % (env, vals)))
+                    continue
+                if m is None:
+                    out.append(("tie:optbig-driver", "%s: no model answer" % env))
+                elif m.startswith("bad"):
+                    out.append(("big-%s" % name, "%s: %s n=%s bytes=%s small: a=%s b=%s large: A=%s B=%s stream: A=%s B=%s"
+                                % (env, m[4:], s.get("nb"), s.get("bytes"), s.get("ca", "")[:300], s.get("cb", "")[:300],
+                                   s.get("CA", "")[:300], s.get("CB", "")[:300], s.get("SA", "")[:200], s.get("SB", "")[:200])))
             elif op == "entry":
                 if sv == "unsupported":
                     continue
@@ -201,6 +225,9 @@ class C18(Spec):
             # ... or it is one of the two switches whose documented effect is "none on valid data", on valid data
             m = (next(iter(model.values()), {}) or {}).get("model", "")
             return _name(case) in ("CopyString", "NoValidateJSONSkip") and case[3] == "u" and m == "ok" and s.get("a", "").startswith("O:")
+        if case[0] == "optbig":
+            # the switch acts on the large document (or is one whose effect is "none on valid data") and the document decodes
+            return s.get("CA", "").startswith("O:") or s.get("CB", "").startswith("O:")
         if case[0] == "entry":
             return s.get("sonic", "").startswith("O:") or s.get("sonic") in ("0", "1")
         if case[0] == "froze":
@@ -276,7 +303,20 @@ class C18(Spec):
         return []
 
     def shrink_candidates(self, case):
-        """smaller value descriptions: a sub-tree replaced by null, a list element / map entry / struct field dropped"""
+        """smaller value descriptions: a sub-tree replaced by null, a list element / map entry / struct field dropped;
+        big documents: fewer repetitions, the other Config switches off"""
+        if case[0] == "optbig":
+            out = []
+            try:
+                n = int(case[6])
+            except (ValueError, IndexError):
+                return []
+            for k in sorted({n // 2, (n * 3) // 4, n - n // 8, n - n // 64, n - 16, n - 1}):
+                if 6 <= k < n:
+                    out.append(case[:6] + [str(k)])
+            if case[2] != "0":
+                out.append(case[:2] + ["0"] + case[3:])
+            return out
         if case[0] != "optpair" or case[3] != "m":
             return []
         try:
